@@ -6,7 +6,8 @@ NAMES = {1: "specific trigger", 2: "avoid round 1", 3: "aimed at the described c
          5: 'well-meant behaviour changes ("bug fix", hardening, new support, port, deduplication)', 6: "small local slips with non-local effect",
          7: "changes consistent with themselves (cooperating edits, compensation, state across calls)", 8: "free style over the list of earlier changes as a coverage map",
          9: "free style again, incl. other entry points that lead into the anchored code", 10: "one-edit mutants in the style of a mutation tool (operator, constant, deletion, swap, sibling method)",
-         11: "after the relations were narrowed: two changes each at the core clauses of six statements, read literally"}
+         11: "after the relations were narrowed: two changes each at the core clauses of six statements, read literally",
+         12: "the twelve other properties: two changes each that need something specific to manifest (sequence, unusual legal input, boundary size, cooperating sites)"}
 # round 1 predates the first_run bookkeeping: its two first misses are known from the log only
 EXTRA_MISS = {(1, "C01"): 1, (1, "C03"): 1}
 R = collections.defaultdict(collections.Counter)
